@@ -215,6 +215,27 @@ func jobC11(c *rt.Ctx) {
 			}
 		}
 	}
+	// argument-length contract on re-slices of the exported base-point slice (fast path selected by
+	// pointer identity): an error and no output exactly when the length is not 32
+	c.Require("baseslice")
+	for hi := 0; hi <= 32; hi++ {
+		if !c.Take() {
+			continue
+		}
+		sc := le32(big.NewInt(int64(1000 + hi)))
+		out, err := X25519(sc, Basepoint[:hi])
+		c.Step(1)
+		c.Class("baseslice")
+		c.Distinct(fmt.Sprintf("baseslice %d", hi), true)
+		wantErr := hi != 32
+		bad := (err != nil) != wantErr || (wantErr && out != nil)
+		if !wantErr && !bad {
+			bad = !bytes.Equal(out, ref.X25519(sc, nine))
+		}
+		if bad {
+			c.Violation(fmt.Sprintf("C11 basepoint-reslice wantErr=%v", wantErr), fmt.Sprintf("X25519(s, Basepoint[:%d]) = %x, %v", hi, out, err), map[string]interface{}{"len": hi})
+		}
+	}
 	// chains: outputs of previous calls as points / scalars (the RFC's iteration, 40 steps)
 	for ch := 0; ch < 4; ch++ {
 		if !c.Take() {
@@ -291,9 +312,9 @@ func jobC12(c *rt.Ctx) {
 	}
 	// public-key strings: decode space
 	var strs [][]byte
-	lim := 1 << 13
+	lim := 1 << 14
 	if c.Thorough() {
-		lim = 1 << 16
+		lim = 1 << 18
 	}
 	for y := 0; y < lim; y++ {
 		for s := 0; s < 2; s++ {
